@@ -1,6 +1,7 @@
 #!/bin/bash
 # run every check's thorough tier into a scratch output dir; report timing and anything not silent
 cd "$(dirname "$0")/.."
+/venv/bin/python -m compileall -q mc > /dev/null || { echo "COMPILE-ERROR in mc/"; exit 2; }
 OUT=${1:-/tmp/thorough_out}
 LIST=${2:-"$(seq -w 1 20)"}
 mkdir -p "$OUT"
